@@ -169,7 +169,7 @@ HAND = [
     {
         "id": "h_dollar_names",
         "files": {
-            "/p/entry.ts": E + 'type Money$$ = { amount: number; currency: string };\ntype $Wrapper = { m: Money$$; list: Money$$[] };\ntype Tree$$1 = { v: number; kids: Tree$$1[] };\nparse.buildParsers<{ Money: Money$$; Wrapper: $Wrapper; Tree: Tree$$1 }>();\n',
+            "/p/entry.ts": E + 'type Order$Item = { sku: string };\ntype Order_Item = { sku: string; qty: number };\ntype Cart = { a: Order$Item; b: Order_Item[] };\ntype Money$$ = { amount: number; currency: string };\ntype $Wrapper = { m: Money$$; list: Money$$[] };\ntype Tree$$1 = { v: number; kids: Tree$$1[] };\nparse.buildParsers<{ Money: Money$$; Wrapper: $Wrapper; Tree: Tree$$1; Cart: Cart; A: Order$Item; B: Order_Item }>();\n',
         },
     },
     {
